@@ -461,7 +461,12 @@ impl Ctx
     {
         let mut g = self.lock();
         g.threads[me].status = Status::Finished;
-        g.push_event(me, Ev::Exit);
+        // threads torn down after an abort (or after the root returned) wake in whatever order
+        // the OS likes: nothing they do then belongs in the deterministic event log
+        if g.abort.is_none()
+        {
+            g.push_event(me, Ev::Exit);
+        }
         for t in g.threads.iter_mut()
         {
             if t.status == Status::BlockedJoin(me as u16)
